@@ -205,6 +205,7 @@ def default_config():
     cfg.ext["any_of"] = _all_any_of("any_of")
     cfg.ext["equal"] = _std_equal
     cfg.ext["var:value"] = _trait_value
+    cfg.ext["var:npos"] = "((unsigned long)-1)"      # std::string::npos
     cfg.ext["compare"] = "xc_traits_compare"
     cfg.ext["lexicographical_compare"] = "xc_lex_compare_cc"
     cfg.ext["find"] = "xc_traits_find"
